@@ -4,7 +4,7 @@ CONSTANTS
   BinOps = {"+", "-", "*", "/", "//", "%", "**", "<<", ">>", "|", "^", "&"}
   CmpOps = {"==", "!=", "<", "<=", ">", ">=", "in", "not in", "is", "is not"}
   Depth2 = FALSE
-  Shapes = {"full", "empty"}
+  Shapes = {"full", "empty", "neg"}
 INVARIANT NumClosed
 CONSTRAINT Export
 CHECK_DEADLOCK FALSE
